@@ -48,6 +48,118 @@ func foldField(fv *types.Var, k int64) func(cond ssa.Value, c *PathCtx) (bool, b
 	return foldFields(map[*types.Var]int64{fv: k})
 }
 
+// evalConstFn evaluates a library function of one parameter for the constant argument k by folding
+// every comparison of that parameter with a constant; it returns the set of constants returned.
+func evalConstFn(p *Prog, g *ssa.Function, k int64) (map[string]bool, bool) {
+	if g == nil || g.Blocks == nil || len(g.Params) != 1 {
+		return nil, false
+	}
+	pa := g.Params[0]
+	out := map[string]bool{}
+	ok := true
+	q := &PathQuery{P: p, Fn: g}
+	q.Fold = func(cond ssa.Value, c *PathCtx) (bool, bool) {
+		pol := true
+		for {
+			if u, isU := cond.(*ssa.UnOp); isU && u.Op == token.NOT {
+				pol = !pol
+				cond = u.X
+				continue
+			}
+			break
+		}
+		b, isB := cond.(*ssa.BinOp)
+		if !isB || (b.Op != token.EQL && b.Op != token.NEQ) {
+			return false, false
+		}
+		x, y := b.X, b.Y
+		cv, isC := constInt(y)
+		if !isC {
+			cv, isC = constInt(x)
+			x = y
+		}
+		if !isC || stripConvs(x) != ssa.Value(pa) {
+			return false, false
+		}
+		return ((k == cv) == (b.Op == token.EQL)) == pol, true
+	}
+	q.AtReturn = func(ret *ssa.Return, st uint64, c *PathCtx) {
+		v := c.Resolve(ret.Results[0])
+		if cst, isC := v.(*ssa.Const); isC && cst.Value != nil {
+			out[cst.Value.ExactString()] = true
+		} else {
+			ok = false
+		}
+	}
+	q.Run()
+	return out, ok && len(out) > 0
+}
+
+// rejectsNonEmptyQuery: on every success (nil-error) return of fn (explored under fold) either the
+// condition len(url.ParseQuery(..)) > 0 is known false, or a library helper that itself satisfies this
+// returned nil.
+func rejectsNonEmptyQuery(p *Prog, fn *ssa.Function, fold func(ssa.Value, *PathCtx) (bool, bool), depth int) (okAll bool, examined bool) {
+	if depth > 2 || fn == nil || fn.Blocks == nil {
+		return false, false
+	}
+	idx := errorResultIndex(fn)
+	if idx < 0 {
+		return false, false
+	}
+	kk := newKeyer()
+	keys := map[string]bool{}
+	for _, b := range fn.Blocks {
+		if iff, ok := b.Instrs[len(b.Instrs)-1].(*ssa.If); ok {
+			if bo, ok := iff.Cond.(*ssa.BinOp); ok && bo.Op == token.GTR {
+				if lc, ok := bo.X.(*ssa.Call); ok && isBuiltinCall(lc, "len") {
+					if e, ok := lc.Call.Args[0].(*ssa.Extract); ok {
+						if cc, ok := e.Tuple.(*ssa.Call); ok && isPkgFuncCall(cc, "net/url", "ParseQuery") {
+							if z, ok := constInt(bo.Y); ok && z == 0 {
+								key, _ := kk.condKey(iff.Cond)
+								keys[key] = true
+							}
+						}
+					}
+				}
+			}
+		}
+	}
+	// helper calls: library functions of one string parameter returning error
+	helperOK := map[*ssa.Call]bool{}
+	eachInstr(fn, func(b *ssa.BasicBlock, i int, in ssa.Instruction) {
+		if c, ok := in.(*ssa.Call); ok {
+			if sc := c.Call.StaticCallee(); sc != nil && p.isLibFn(sc) && sc != fn && len(sc.Params) == 1 && sc.Signature.Results().Len() == 1 && errorResultIndex(sc) == 0 {
+				if ok2, ex := rejectsNonEmptyQuery(p, sc, nil, depth+1); ok2 && ex {
+					helperOK[c] = true
+				}
+			}
+		}
+	})
+	okAll = true
+	q := &PathQuery{P: p, Fn: fn, K: kk, Fold: fold}
+	q.AtReturn = func(ret *ssa.Return, st uint64, c *PathCtx) {
+		if c.NilState(ret.Results[idx]) != +1 {
+			return
+		}
+		good := false
+		for key := range keys {
+			if v, known := c.Known(key); known && !v {
+				good = true
+			}
+		}
+		for hc := range helperOK {
+			if c.NilState(hc) == +1 {
+				good = true
+			}
+		}
+		if !good {
+			okAll = false
+		}
+	}
+	q.Run()
+	return okAll, len(keys) > 0 || len(helperOK) > 0
+}
+
 func foldFields(vals map[*types.Var]int64) func(cond ssa.Value, c *PathCtx) (bool, bool) {
 	return func(cond ssa.Value, c *PathCtx) (bool, bool) {
 		pol := true
@@ -300,13 +412,33 @@ func checkParsePerScheme(r *Run, rc *RuleCtx, parse *ssa.Function, uc *uriConsts
 				if isPkgFuncCall(cc, "net/url", "ParseQuery") {
 					st |= sawParseQuery
 				}
+				if sc := cc.Call.StaticCallee(); sc != nil && p.isLibFn(sc) && sc != parseProto {
+					eachInstr(sc, func(bb *ssa.BasicBlock, j int, x ssa.Instruction) {
+						if isPkgFuncCall(x, "net/url", "ParseQuery") {
+							st |= sawParseQuery
+						}
+					})
+				}
 				if parseProto != nil && callsFn(cc, parseProto) {
 					st |= sawParseProto
 				}
 				if isPkgFuncCall(cc, "net", "SplitHostPort") {
-					if b, ok := cc.Call.Args[0].(*ssa.BinOp); ok && b.Op == token.ADD {
-						if s, ok := constString(c.Resolve(b.Y)); ok {
+					arg := deref(cc.Call.Args[0])
+					if b, ok := arg.(*ssa.BinOp); ok && b.Op == token.ADD {
+						y := c.Resolve(b.Y)
+						if s, ok := constString(y); ok {
 							defaults[s] = true
+						} else if hc, ok := y.(*ssa.Call); ok && len(hc.Call.Args) == 1 && valueIsLoadOfField(deref(stripConvs(hc.Call.Args[0])), schemeF) {
+							// a helper mapping the scheme to the port suffix: evaluate it for this scheme
+							if res, ok := evalConstFn(p, hc.Call.StaticCallee(), k); ok {
+								for s := range res {
+									if len(s) >= 2 {
+										defaults[s[1:len(s)-1]] = true
+									}
+								}
+							} else {
+								defaults["?"] = true
+							}
 						} else {
 							defaults["?"] = true
 						}
@@ -377,48 +509,11 @@ func checkParsePerScheme(r *Run, rc *RuleCtx, parse *ssa.Function, uc *uriConsts
 			rc.Violation(parse, parse.Pos(), name+" URIs never accepted", "")
 		}
 	}
-	// stun/stuns reject non-empty queries: the success paths pass len(qArgs) > 0 == false
+	// stun/stuns reject non-empty queries
 	for _, name := range []string{"stun", "stuns"} {
-		k := uc.Scheme[name]
-		kk := newKeyer()
-		q := &PathQuery{P: p, Fn: parse, K: kk, Fold: foldField(schemeF, k)}
-		// keys of `len(ParseQuery result) > 0`
-		keys := map[string]bool{}
-		for _, b := range parse.Blocks {
-			if iff, ok := b.Instrs[len(b.Instrs)-1].(*ssa.If); ok {
-				if bo, ok := iff.Cond.(*ssa.BinOp); ok {
-					if lc, ok := bo.X.(*ssa.Call); ok && isBuiltinCall(lc, "len") {
-						if e, ok := lc.Call.Args[0].(*ssa.Extract); ok {
-							if cc, ok := e.Tuple.(*ssa.Call); ok && isPkgFuncCall(cc, "net/url", "ParseQuery") {
-								if z, ok := constInt(bo.Y); ok && z == 0 && bo.Op == token.GTR {
-									key, _ := kk.condKey(iff.Cond)
-									keys[key] = true
-								}
-							}
-						}
-					}
-				}
-			}
-		}
-		bad := false
-		q.AtReturn = func(ret *ssa.Return, st uint64, c *PathCtx) {
-			if !isSuccess(ret, c) {
-				return
-			}
-			ok := false
-			for key := range keys {
-				// condKey of (0 < len) with polarity: key true means len > 0
-				if v, known := c.Known(key); known && !v {
-					ok = true
-				}
-			}
-			if !ok {
-				bad = true
-			}
-		}
-		q.Run()
+		okAll, examined := rejectsNonEmptyQuery(p, parse, foldField(schemeF, uc.Scheme[name]), 0)
 		rc.Instance("ParseURI|"+name+" rejects queries", true, nil)
-		if bad || len(keys) == 0 {
+		if !okAll || !examined {
 			rc.Violation(parse, parse.Pos(), name+" URI with query accepted", "RFC 7064: stun/stuns URIs carry no query")
 		}
 	}
